@@ -37,6 +37,8 @@ type specCtx struct {
 	where   string
 	extra   map[string]string // pseudo-constants (e.g. loop measure)
 	consts  map[string]constant.Value // variables of all()/any() expansions: usable as constants
+	prevSt  *State          // loop step clauses: state at the loop head of this iteration
+	prevVar map[string]Val  // ... and the variables as they were there
 }
 
 func (c *specCtx) clone() *specCtx {
@@ -778,6 +780,20 @@ func (c *specCtx) call(n *ast.CallExpr) (sv, error) {
 		}
 		cc := c.clone()
 		cc.st = c.old
+		return cc.eval(args[0])
+	case "prev":
+		if c.prevSt == nil {
+			return sv{}, c.errf("prev() is only available in loop step clauses")
+		}
+		cc := c.clone()
+		cc.st = c.prevSt
+		cc.vars = map[string]Val{}
+		for k, v := range c.vars {
+			cc.vars[k] = v
+		}
+		for k, v := range c.prevVar {
+			cc.vars[k] = v
+		}
 		return cc.eval(args[0])
 	case "imp":
 		a, err := c.eval(args[0])
